@@ -11,12 +11,12 @@ git -C /repo worktree add -q "$wt" HEAD || exit 2
 trap 'git -C /repo worktree remove --force "$wt" 2>/dev/null' EXIT
 cd "$wt"
 cp "$demo" "$pkgdir/zz_seeded_demo_test.go"
-if go test $CONFIRM_FLAGS -vet=off -count=1 -run "$rx" "./$pkgdir/" >/tmp/confirm.$$.clean 2>&1; then echo "clean: demo PASSES"; else echo "clean: demo FAILS (bad demo)"; tail -5 /tmp/confirm.$$.clean; fi
+if go test ${CONFIRM_FLAGS:-} -vet=off -count=1 -run "$rx" "./$pkgdir/" >/tmp/confirm.$$.clean 2>&1; then echo "clean: demo PASSES"; else echo "clean: demo FAILS (bad demo)"; tail -5 /tmp/confirm.$$.clean; fi
 rm "$pkgdir/zz_seeded_demo_test.go"
 git apply "$patch" || { echo "patch does not apply"; exit 2; }
 if go build ./... >/tmp/confirm.$$.build 2>&1; then echo "patched: builds"; else echo "patched: BUILD FAILS"; tail -5 /tmp/confirm.$$.build; fi
 out="$(go test -vet=off -count=1 "$@" 2>&1 | grep -v "^ok\|no test files" | grep -v "TestWriteError\|^20\|diskpacked_test.go\|^FAIL$\|^FAIL.*diskpacked\s" | head -10)"
 if [ -z "$out" ]; then echo "patched: existing tests PASS ($*)"; else echo "patched: existing tests output:"; echo "$out"; fi
 cp "$demo" "$pkgdir/zz_seeded_demo_test.go"
-if go test $CONFIRM_FLAGS -vet=off -count=1 -run "$rx" "./$pkgdir/" >/tmp/confirm.$$.mut 2>&1; then echo "patched: demo PASSES (mutant not demonstrated)"; else echo "patched: demo FAILS (as intended)"; fi
+if go test ${CONFIRM_FLAGS:-} -vet=off -count=1 -run "$rx" "./$pkgdir/" >/tmp/confirm.$$.mut 2>&1; then echo "patched: demo PASSES (mutant not demonstrated)"; else echo "patched: demo FAILS (as intended)"; fi
 rm -f /tmp/confirm.$$.*
